@@ -28,14 +28,26 @@ Oracle.
     pair: deep snapshot of every field of m.do_math() equal before/after each solve (signed zeros identified);
           I2's answer on the shared object equals I2's answer on a fresh object.
 Exceptions raised by solve(), limits and 'inaccurate' statuses make a case vacuous (C11 is conditional).
+
+Interface support table used by the generator (everything else is enumerated for all four interfaces):
+    default, ort   LP / MILP only (they warn and ignore cones)
+    grb            LP / MILP / SOCP / MISOCP
+    eco            everything, but (i) ECOS_BB only with <= 3 integer variables, (ii) not on programs whose equality
+                   matrix has an empty row (ECOS' C set-up fails, loudly, with RuntimeError), (iii) on models that mix
+                   binary and general-integer variables only on a 4-spec sub-grammar: ECOS_BB is broken there (known
+                   finding) and mostly does not terminate, every such case would only burn the watchdog.
+Signatures:  <family>|<front end>|<input class>|<interface>|<failed check>   e.g.
+    MILP|ro|vt=CB|B:half-dn|I:-|bounds-as:B|def|objval        LP|ro|empty-neg-sum|bounds-as:R|ort|residual:lerow
+    MILP|ro|vt=B|B:none|I:-|bounds-as:B|pair|mutates:def:ub+lb    SOCP|ro|norm|feas-row|vt=C|eco>grb|order-dependent
 """
 import itertools
+import zlib
 import numpy as np
 
 PROPERTY = 'C11'
-TIMEOUT = 12.0
+TIMEOUT = 10.0
 CHUNK = 8
-FLOOR = 0.45
+FLOOR = 0.5
 RULE = ('every spec of the LP / MILP / SOCP / EXP grammars (module docstring) x every supporting interface x '
         'log flag (solo) and x every ordered interface pair on one model object (pair); a case is non-trivial when '
         'the reference (or peer interface) and the interface under test both reached a definite verdict and either '
@@ -76,24 +88,7 @@ OBJ = {
 
 def _bound_items(kinds, style):
     """kinds: list of bound-kind names per variable.  style: 'B' slice/whole Bounds, 'R' rows, 'A' array-valued whole Bounds."""
-    n = len(kinds)
-    items = []
-    lbs = [BK[k][0] for k in kinds]
-    ubs = [BK[k][1] for k in kinds]
-    if style == 'A':
-        if any(v is not None for v in lbs):
-            items.append(['bnd', 'L', None, [('-inf' if v is None else v) for v in lbs], 'A'])
-        if any(v is not None for v in ubs):
-            items.append(['bnd', 'U', None, [('inf' if v is None else v) for v in ubs], 'A'])
-        return items
-    for which, vals in (('L', lbs), ('U', ubs)):
-        if all(v is not None and v == vals[0] for v in vals):
-            items.append(['bnd', which, None, vals[0], style])           # whole variable, scalar value
-            continue
-        for j, v in enumerate(vals):
-            if v is not None:
-                items.append(['bnd', which, [j, j + 1], v, style])       # slice
-    return items
+    return _mk_bounds([BK[k][0] for k in kinds], [BK[k][1] for k in kinds], style)
 
 
 def _rows(blocks, n, xs, pal, salt=0):
@@ -141,10 +136,12 @@ def _lp_specs(thorough, pal):
             for ks in ([(1,) * B, (2,) + (1,) * (B - 1)] if B > 1 else [(1,), (2,)]):
                 bcfg.append(list(zip(ks, senses)))
     # part A: row structure x variant, bounds pattern rotating
-    cnt = 0
+    # `cnt` rotates the bound pattern / style / objective; it is a function of the position in the *full* grammar so
+    # that the quick tier is a subset of the thorough one
     for n in (1, 2, 3):
-        for blocks in bcfg:
-            for var in LP_VARIANTS:
+        for bi, blocks in enumerate(bcfg):
+            for vi, var in enumerate(LP_VARIANTS):
+                cnt = 1000 * n + len(LP_VARIANTS) * bi + vi
                 kinds = [BKL[(cnt + 3 * j) % len(BKL)] for j in range(n)]
                 style = 'BRA'[cnt % 3]
                 xs = [BK[k][2] for k in kinds]
@@ -152,13 +149,16 @@ def _lp_specs(thorough, pal):
                 if cnt % 2:
                     items = items[::-1]          # bounds after the rows
                 for oi, (d, c) in enumerate((('min', OBJ[n][cnt % len(OBJ[n])]), ('max', OBJ[n][(cnt + 1) % len(OBJ[n])]))):
-                    for fe in (('ro', 'lp', 'dro') if thorough else ('ro',) if cnt % 4 else ('ro', 'lp')):
+                    for fe in ((('ro', 'lp', 'dro') if len(blocks) < 3 else ('ro',)) if thorough
+                               else ('ro',) if cnt % 4 else ('ro', 'lp')):
+                        if fe == 'dro' and style == 'A':
+                            continue    # dro turns array-valued bounds into rows: +-inf entries would become rows
+                            #             with an infinite right-hand side, which is outside the grammar
                         spec = {'fe': fe, 'n': n, 'vt': 'C', 'items': items, 'obj': [d, c],
                                 'cls': 'LP|%s|rows:%s|%s|%s' % (fe, '+'.join('%d%s' % b for b in blocks), var,
                                                                 'bnd:%s/%s' % (','.join(kinds), style)),
                                 'sig': 'LP|%s|%s|bounds-as:%s' % (fe, var, style)}
                         yield spec, (oi == 0 and fe == 'ro' and var in ('base', 'empty-neg-mat', 'empty-eq0'))
-                cnt += 1
     # part B: every bound pattern x style, two fixed row structures
     for n in (1, 2, 3):
         pats = [[k] * n for k in BKL]
@@ -232,11 +232,17 @@ def _milp_specs(thorough, pal):
                                                                                   ik if hasI else '-', style, sense),
                                     'sig': 'MILP|%s|vt=%s|B:%s|I:%s|bounds-as:%s' % (fe, vt, bk if hasB else '-',
                                                                                    ik if hasI else '-', style)}
+                            if hasB and hasI:
+                                # ECOS_BB given bool_vars_idx *and* int_vars_idx is broken upstream (binaries leave
+                                # {0,1}, wrong optima, frequent non-termination): a known finding.  It is exercised on
+                                # a small sub-grammar only, the rest would just burn the watchdog.
+                                lim = (vt in ('IB', 'CIB') and style == 'B' and sense == '<=' and fe == 'ro' and
+                                       (bk, ik) in (('none', 'box'), ('wide', 'box'), ('le0', 'box'), ('none', 'frac')))
+                                spec['eco'] = 'limited' if lim else 'none'
                             yield spec, (style == 'B' and sense == '<=' and oi == 0 and fe == 'ro')
 
 
 def _mk_bounds(lbs, ubs, style):
-    n = len(lbs)
     items = []
     if style == 'A':
         if any(v is not None for v in lbs):
@@ -257,7 +263,6 @@ def _mk_bounds(lbs, ubs, style):
 # ------------------------------------------------------------------------------------------------
 # SOCP grammar (x[0] is the epigraph variable)
 def _socp_specs(thorough, pal):
-    E = [[0.0, 1.0, 0.0], [0.0, 0.0, 1.0]]
     s = [1.0, 2.0, 0.5, 1.5][pal]
     Es = [[0.0, s, 0.0], [0.0, 0.0, 1.0]]
     e0 = [1.0, 0.0, 0.0]
@@ -274,6 +279,8 @@ def _socp_specs(thorough, pal):
             for vt in ('C', 'CIC', 'CCB') + (('CII',) if thorough else ()):
                 if var == 'objcone' and cname not in ('norm', 'sumsqr'):
                     continue
+                if var == 'unbounded' and vt != 'C':
+                    continue        # branch and bound on an unbounded mixed-integer SOCP need not terminate (any solver)
                 items = [cone]
                 obj = ['min', [1.0, 0.0, 0.0]]
                 if cname == 'rsocone':
@@ -405,6 +412,10 @@ def _ifaces_for(spec):
     fam = _family(spec)
     ni = _nint(spec)
     if fam in ('LP', 'MILP'):
+        if spec.get('eco') == 'none' or '|empty-eq' in spec['cls']:
+            # ECOS cannot set up a problem whose equality matrix has an empty row (RuntimeError from its C setup,
+            # occasionally not raised at all): outside what this interface supports
+            return [i for i in IFACES if i != 'eco']
         return [i for i in IFACES if not (i == 'eco' and ni > 3)]
     if fam == 'SOCP':
         return [i for i in ('eco', 'grb') if not (i == 'eco' and ni > 3)]
@@ -415,10 +426,9 @@ def gen_cases(tier, seed):
     thorough = tier == 'thorough'
     pals = [0, 1, 2, 3] if thorough else [seed % 4]
     for pal in pals:
-        k = 0
         for gen in (_lp_specs, _milp_specs, _socp_specs, _exp_specs):
             for spec, want_pairs in gen(thorough, pal):
-                k += 1
+                k = zlib.crc32((spec['cls'] + spec['obj'][0] + str(len(spec['obj']))).encode())     # structural, palette independent
                 ifs = _ifaces_for(spec)
                 for i in ifs:
                     yield {'kind': 'solo', 'spec': spec, 'iface': i, 'log': False}
@@ -429,6 +439,8 @@ def gen_cases(tier, seed):
                         yield {'kind': 'pair', 'spec': spec, 'order': [ifs[0], ifs[0]]}
                     else:
                         for i1, i2 in itertools.permutations(ifs, 2):
+                            if spec.get('eco') == 'limited' and 'eco' in (i1, i2) and 'grb' not in (i1, i2):
+                                continue
                             yield {'kind': 'pair', 'spec': spec, 'order': [i1, i2]}
 
 
@@ -493,7 +505,7 @@ def _solve(m, x, iface, log):
     for name, fn in (('mget', m.get), ('xget', x.get)):
         try:
             out[name] = fn()
-        except RuntimeError as ex:
+        except RuntimeError:
             out[name + '_err'] = 'RuntimeError'
         except Exception as ex:  # noqa
             out[name + '_err'] = type(ex).__name__
@@ -601,7 +613,7 @@ def _run_solo(case):
             return {'status': 'violation', 'sig': base + '|get-sign', 'ops': nops,
                     'detail': 'model.get()=%r objval=%r dir=%s' % (r['mget'], r['objval'], spec['obj'][0])}
         xg = np.asarray(r['xget'], dtype=float).reshape(-1)
-        first = getattr(x, 'first', None)
+        first = getattr(x, 'first', None) if spec.get('fe', 'ro') in ('ro', 'lp') else None   # dro: other layout
         if first is not None and not np.array_equal(xg, r['x'][first:first + xg.size]):
             return {'status': 'violation', 'sig': base + '|x.get', 'ops': nops,
                     'detail': 'x.get()=%s solution.x=%s' % (xg.tolist(), r['x'].tolist())}
@@ -660,12 +672,12 @@ def _run_pair(case):
                 'detail': 'do_math() returned a different object after solve'}
     d1 = prog.snap_diff(S0, prog.snapshot(f1))
     if d1:
-        return {'status': 'violation', 'sig': base + '|mutates:%s:%s' % (i1, '+'.join(d1)), 'ops': nops,
+        return {'status': 'violation', 'sig': spec['sig'] + '|pair|mutates:%s:%s' % (i1, '+'.join(d1)), 'ops': nops,
                 'detail': _diff_detail(S0, prog.snapshot(f1), d1)}
     r2 = _solve(m, x, i2, False)
     d2 = prog.snap_diff(S0, prog.snapshot(m.do_math()))
     if d2:
-        return {'status': 'violation', 'sig': base + '|mutates:%s:%s' % (i2, '+'.join(d2)), 'ops': nops,
+        return {'status': 'violation', 'sig': spec['sig'] + '|pair|mutates:%s:%s' % (i2, '+'.join(d2)), 'ops': nops,
                 'detail': _diff_detail(S0, prog.snapshot(m.do_math()), d2)}
     # I2 on the shared object vs I2 on a fresh object
     m3, x3, _, _ = bld.build(spec)
